@@ -30,7 +30,7 @@ def resolve(cwd, p):
     if p.startswith('~'):
         return os.path.expanduser(p)
     if p.startswith('/'):
-        return p
+        return os.path.normpath(p)     # os.path.abspath normalises: no trailing slash, no `..`
     return cwd + '/' + p
 
 
@@ -40,7 +40,7 @@ def gen_scenario(rng, parallel=False, small=False):
     texts = [['make a'], ['make b'], ['cd sub', 'make c']]
     n_scripts = rng.choice([0, 1, 1, 2, 2, 3])
     pool = texts[:n_scripts]
-    dirs = rng.choice([[None], ['d1'], [None, 'd1'], ['d1', 'd2'], ['d1', ABS + '/x'], [None, 'd1', 'd2'], ['d1', '~/vb']])
+    dirs = rng.choice([[ABS + '/x/', ABS + '/x'], [ABS + '/y/../x', ABS + '/x/', None], [None], ['d1'], [None, 'd1'], ['d1', 'd2'], ['d1', ABS + '/x'], [None, 'd1', 'd2'], ['d1', '~/vb']])
     executors, suites = [], []
     for i in range(n_exec):
         executors.append({
@@ -89,6 +89,9 @@ def gen_scenario(rng, parallel=False, small=False):
     if mode == 'one-fail' and builds:
         sc['results'][rng.randrange(len(builds))]['res'] = 'fail'
     if mode == 'oserr' and builds:
+        # not only ENOENT: the directory is a regular file (ENOTDIR), may not be entered (EACCES),
+        # the environment is too large (E2BIG), ...
+        sc['oserr_errno'] = rng.choice([2, 2, 20, 13, 7, 12])
         d = rng.choice(builds)[1]
         for r in sc['results']:
             if r['dir'] == d:
@@ -174,12 +177,17 @@ def all_pairs(sc):
     return out
 
 
+def norm_spec(p):
+    """the model takes paths in normal form (its stated domain); abspath's normalisation is Python's"""
+    return os.path.normpath(p) if isinstance(p, str) and p.startswith('/') else p
+
+
 def expected_builds(sc, cwd, e, s):
     """independent restatement: the (script, directory) pairs a run of (e, s) requires.
     Directories are relative specs when cwd == '' (scenario level)."""
     def d(p):
         if cwd == '':
-            return p or ''
+            return norm_spec(p) or ''
         return resolve(cwd, p)
     out = []
     if e['build']:
@@ -310,7 +318,7 @@ def run_impl(ck, sc, idx):
     if sc['sched'] != 'batch':
         argv += ['-s', sc['sched']]
     bs = drive_builds.run_build_session(wd, conf, argv, build_result, cpu_count=sc['cpu'],
-                                        choices=sc['choices'], choose=choose)
+                                        choices=sc['choices'], choose=choose, oserr_errno=sc.get('oserr_errno', 2))
     if bs.stuck:
         raise lib.InfraError('thread controller: ' + bs.stuck)
     return wd, bs
@@ -343,9 +351,9 @@ def model_request(sc, wd, order, repaired=True, picks=None, done0=None):
     setup_only = '--setup-only' in sc['flags']
     return {
         'op': 'c13.session', 'cwd': wd, 'home': os.path.expanduser('~'),
-        'executors': [{'name': e['name'], 'path': e['path'], 'build': e['build'],
+        'executors': [{'name': e['name'], 'path': norm_spec(e['path']), 'build': e['build'],
                        'env': None if e['env'] is None else env_list(e['env'])} for e in sc['executors']],
-        'suites': [{'name': s['name'], 'location': s['location'], 'build': s['build'],
+        'suites': [{'name': s['name'], 'location': norm_spec(s['location']), 'build': s['build'],
                     'env': None if s['env'] is None else env_list(s['env'])} for s in sc['suites']],
         'runs': [{'exec': k[0], 'suite': k[1], 'inv': 1 if setup_only else find(sc['suites'], k[1])['inv'],
                   'excl': bool(find(sc['suites'], k[1])['excl']), 'done0': (done0 or {}).get(k, 0),
@@ -389,7 +397,7 @@ def oracle(ck, sc, wd, bs, order, evs, inp):
     seen = {}
     for ev in evs:
         if ev[0] == 'B':
-            key = (ev[1], ev[2])
+            key = (ev[1], os.path.normpath(ev[2]))   # one directory, however it is spelled
             seen[key] = seen.get(key, 0) + 1
     for key, n in seen.items():
         if n > 1:
@@ -558,7 +566,7 @@ def check_batch(ck, scenarios, base_idx=0, search=True):
         shared = len(set(b for k in order for b in expected_builds(sc, wd, find(sc['executors'], k[0]), find(sc['suites'], k[1]))))
         ck.count('distinct-builds:%d' % shared)
         for r in sc['results']:
-            ck.count('result:' + r['res'])
+            ck.count('result:' + r['res'] + (':errno%d' % sc.get('oserr_errno', 2) if r['res'] == 'oserr' else ''))
         ck.case(nontrivial_key=json.dumps([make_config(sc), sc['results'], sc['flags'], sc['sched'], inp['picks'], sc.get('prior'), sc.get('conf_subdir')],
                                           sort_keys=True) if shared else None,
                 sample={'config': make_config(sc), 'results': sc['results'], 'events': evs[:8]})
@@ -646,6 +654,9 @@ def pattern_scenarios():
                  [su('S1', None, ['cd sub', 'make c'], {'S': 's1'}, inv=2), su('S2', 'd2', B), su('S3', ABS + '/x', A)]))
     # a location under the home directory
     pats.append(([ex('E1', '~/vb', A)], [su('S1', None, B), su('S2', 'd1', A)]))
+    # one directory spelled differently (trailing slash, `..`): still one build
+    pats.append(([ex('E1', ABS + '/x/', A)], [su('S1', None, A)]))
+    pats.append(([ex('E1', ABS + '/x/', A), ex('E2', ABS + '/y/../x', A)], [su('S1', ABS + '/x', A), su('S2', None, B)]))
     # no builds at all
     pats.append(([ex('E1', 'd1', [])], [su('S1', None, [], benches=('b1', 'b2'), inv=2)]))
     out = []
@@ -820,6 +831,10 @@ def cli_build_sessions(ck, thorough):
             ([(l, o, b, p) for l in ('ascii', 'utf8') for o in ('ascii', 'non-ascii') for b in (False, True)
               for p in (False, True)] if thorough else []):
         scen.append({'locale': locale, 'output': out, 'bad_executor_build': bad, 'parallel': par})
+    # a build that cannot even be started: the executor's path is a regular file (ENOTDIR)
+    scen.insert(1, {'locale': 'utf8', 'output': 'ascii', 'bad_executor_build': True, 'parallel': False, 'bad_start': 'ENOTDIR'})
+    if thorough:
+        scen.append({'locale': 'ascii', 'output': 'non-ascii', 'bad_executor_build': True, 'parallel': True, 'bad_start': 'ENOTDIR'})
     for i, sc in enumerate(scen):
         wd = os.path.join(ck.scratch, 'cli%d' % i)
         sdir = os.path.join(wd, 'suite')
@@ -842,6 +857,8 @@ def cli_build_sessions(ck, thorough):
             cfg['executors']['Bad'] = {'path': sdir, 'executable': 'vmB.sh',
                                        'build': ['echo built >> %s/Bad.count' % wd, say, say + ' >&2', 'exit 1']}
             cfg['experiments']['All']['executions'].append('Bad')
+            if sc.get('bad_start') == 'ENOTDIR':
+                cfg['executors']['Bad']['path'] = os.path.join(sdir, 'vmG.sh')   # a regular file
         conf = drive.write_config(wd, cfg)
         r = drive_config.run_cli(wd, [conf], ASCII_LOCALE if sc['locale'] == 'ascii' else {'LC_ALL': 'C.UTF-8'})
         ck.impl_traces += 1
@@ -853,14 +870,14 @@ def cli_build_sessions(ck, thorough):
         obs = {'exit': r.exit, 'traceback': r.crash[0] if r.crash else None,
                'build_counts': {b: count(b + '.count') for b in ('S', 'Good', 'Bad')}, 'benchmark_starts': sorted(runs)}
         inp = dict(sc, kind='cli-builds', config=cfg)
-        ck.count('cli-builds:%s/%s/%s/%s' % (sc['locale'], sc['output'], 'bad' if sc['bad_executor_build'] else 'ok',
+        ck.count('cli-builds:%s/%s/%s/%s' % (sc['locale'], sc['output'], ('bad-' + sc['bad_start'] if sc.get('bad_start') else 'bad') if sc['bad_executor_build'] else 'ok',
                                             'parallel' if sc['parallel'] else 'batch'))
         ck.case(nontrivial_key=('cli-builds', json.dumps(sc, sort_keys=True)), sample={'scenario': sc, 'observed': obs})
         sig = {'locale': sc['locale'], 'build_output': sc['output']}
         if r.crash:
             ck.oracle_fail('no_traceback', inp, dict(obs, stderr=r.stderr[-600:]),
                            signature=dict(sig, clause='no_traceback', exception=r.crash[0], session='cli'))
-        want = {'S': 1, 'Good': 1, 'Bad': 1 if sc['bad_executor_build'] else 0}
+        want = {'S': 1, 'Good': 1, 'Bad': 1 if sc['bad_executor_build'] and not sc.get('bad_start') else 0}
         for b, n in obs['build_counts'].items():
             if n > 1 or (n != want[b] and not r.crash):
                 ck.oracle_fail('once', inp, dict(obs, build=b, expected=want[b]),
